@@ -192,3 +192,30 @@ Proof.
   - match goal with Hf : N.eqb (gn_reg _) _ = true |- _ => now apply N.eqb_eq in Hf end.
   - match goal with Hn : negb (Nat.eqb i j) = true |- _ => apply negb_true_iff in Hn; now apply Nat.eqb_neq in Hn end.
 Qed.
+
+(* ---- C09: equivalence of the worker copies ---- *)
+
+Lemma copies_equiv_sound g w1 w2 i :
+  copies_equiv g w1 w2 = true -> i < length g -> gn_worker (gnd g i) = Some w1 ->
+  (mirror g w2 i = None /\ In w2 (gn_excl (gnd g i))) \/
+  (exists j, mirror g w2 i = Some j /\ ~ In w2 (gn_excl (gnd g i)) /\
+             length (gn_parents (gnd g i)) = length (gn_parents (gnd g j)) /\
+             forall p objs, In (p, objs) (gn_parents (gnd g i)) -> gn_root (gnd g p) = true \/
+                exists pj, mirror g w2 p = Some pj /\ In pj (map fst (gn_parents (gnd g j)))).
+Proof.
+  intros H Hi Hw. unfold copies_equiv in H. rewrite forallb_forall in H.
+  assert (Hin : In i (worker_nodes g w1)).
+  { unfold worker_nodes. apply filter_In. split.
+    - unfold idxs. apply in_seq. split; [apply Nat.le_0_l | exact Hi].
+    - rewrite Hw. cbn. apply N.eqb_refl. }
+  specialize (H i Hin). unfold node_mirrored in H.
+  destruct (mirror g w2 i) as [j|] eqn:Em.
+  - right. exists j. apply andb_prop in H. destruct H as [H Hlen]. apply andb_prop in H. destruct H as [Hex Hpar].
+    split; [reflexivity|]. split.
+    + intros Hc. apply memN_In in Hc. rewrite Hc in Hex. discriminate.
+    + split; [now apply Nat.eqb_eq|]. intros p objs Hp. rewrite forallb_forall in Hpar.
+      specialize (Hpar (p, objs) Hp). cbn [fst] in Hpar. apply orb_prop in Hpar. destruct Hpar as [Hr|Hm]; [now left|].
+      right. destruct (mirror g w2 p) as [pj|]; [|discriminate]. exists pj. split; [reflexivity|].
+      unfold memn in Hm. apply existsb_exists in Hm. destruct Hm as [y [Hy E]]. apply Nat.eqb_eq in E. now subst.
+  - left. split; [reflexivity|]. now apply memN_In.
+Qed.
